@@ -425,11 +425,33 @@ pub fn gen_c14(ctx: &mut Ctx) {
     }
 }
 
+/// one extreme RNG word (all ones / all zeros) at every possible call position of a short run
+pub fn res_extreme_sweep(ctx: &mut Ctx) {
+    for k in [1u64, 2, 3] {
+        let n = 12 * k + 3;
+        for word in [u64::MAX, 0u64] {
+            for pos in 0..(n + 4) {
+                ctx.case("res.sweep");
+                let seed = 1000 + k;
+                let mut sm = crate::script::SplitMix(seed ^ 0x55);
+                let mut forced: Vec<String> = (0..pos).map(|_| sm.next().to_string()).collect();
+                forced.push(word.to_string());
+                ctx.op(format!("res.new 1 {} {} {}", k, seed, forced.join(" ")));
+                for i in 0..n {
+                    ctx.op(format!("res.add 1 {}", i));
+                }
+                ctx.op("res.get 1".into());
+            }
+        }
+    }
+}
+
 pub fn gen_c18(ctx: &mut Ctx) {
     for _ in 0..(120 * ctx.tier_scale) {
         ctx.case("res");
         res_history(ctx);
     }
+    res_extreme_sweep(ctx);
 }
 
 pub fn gen_c09(ctx: &mut Ctx) {
@@ -495,6 +517,13 @@ pub fn gen_c19(ctx: &mut Ctx) {
             // clear vs fresh, then the same continuation on both
             ctx.op(format!("{}.clear 1", f.name));
             observe_both(ctx, f, 1, 2, &keys.univ);
+            // a single element after clear: not empty any more (also when its probe positions coincide)
+            let k1 = keys.pick(ctx);
+            ctx.op(format!("both {} 1 2 {}", f.add, k1));
+            ctx.op(format!("both {}.empty 1 2", f.name));
+            ctx.op(format!("{}.clear 1", f.name));
+            ctx.op(format!("{}.clear 2", f.name));
+            ctx.op(format!("both {}.empty 1 2", f.name));
             // cuckoo: keep the continuation below `bucketsize` inserts so that no eviction
             // (hence no RNG draw, whose stream position legitimately differs) is involved
             let ncont = if f.name == "cuckoo" { cfg[0] - 1 } else { ctx.rng.below(2 * cap.min(30) + 2) };
